@@ -68,7 +68,7 @@ def main():
                            ALDYSIM_REPO=copy)
                 rc, out = sh(f"/venv/bin/python {VERIF}/check.py {c} --tier {tier} --no-selftest", env=env)
                 clauses = [l.strip() for l in out.splitlines() if l.strip().startswith("clause:")]
-                results[c] = {"exit": rc, "clauses": sorted(set(clauses))[:4]}
+                results[c] = {"exit": rc, "clauses": sorted(set(clauses))[:4], "tier": tier}
                 print("check", c, "exit", rc, sorted(set(clauses))[:3])
         finally:
             shutil.rmtree(os.path.dirname(copy), ignore_errors=True)
@@ -120,7 +120,7 @@ def main():
                 t = time.time()
                 rc, out = sh(f"/venv/bin/python {VERIF}/check.py {c} --tier {tier} --no-selftest", env=env)
                 clauses = [l.strip() for l in out.splitlines() if l.strip().startswith("clause:")]
-                results[c] = {"exit": rc, "clauses": sorted(set(clauses))[:4], "wall_s": round(time.time() - t)}
+                results[c] = {"exit": rc, "clauses": sorted(set(clauses))[:4], "wall_s": round(time.time() - t), "tier": tier}
                 print("check", c, "exit", rc, sorted(set(clauses))[:3])
         finally:
             shutil.rmtree(os.path.dirname(copy), ignore_errors=True)
